@@ -125,7 +125,7 @@ Proof. vm_compute. split; reflexivity. Qed.
 (* ---- serving-side bookkeeping (Model/PubSub.v; proofs in Proofs/PubSub{Base,Inv,Step,Step2,Thm,Sub,Spec}.v) ---- *)
 (* All theorems below quantify over EVERY configuration and EVERY event sequence (open / subscribe /
    unsubscribe / publish direct+relayed+malformed / close / break / evict / revalidate / close-space /
-   set-member / snapshot, any strings).  The only hypothesis is [fresh_opens evs]: a stream id is opened
+   set-member / snapshot / a Subscribe during which a stream leaves the pool (ESubMid), any strings).  The only hypothesis is [fresh_opens evs]: a stream id is opened
    at most once (the pool allocates ids from a counter).
    Vocabulary: [has s sid space p]  — p is in bySpace[space] of the stream record of sid (the registered
    interest); tags are [sv_pool s]; the space tries are [sv_remote s].
@@ -253,6 +253,50 @@ Theorem c17_subscribe_registers : forall c evs sid space pats, fresh_opens evs -
         has s' sid space q = true \/ exists rejected, o = OStatus TooManyTopics rejected /\ In q rejected).
 Proof. exact (fun c evs sid space pats H => has_sub c _ sid space pats (reachable_inv c evs H)). Qed.
 Print Assumptions c17_subscribe_registers.
+
+(* the subscribe/close race.  [ESubMid sid victim space pats] is the schedule "stream [victim] is removed from
+   the pool while the Subscribe handler of [sid] sits between the recording of the interest and
+   pool.AddTagsCtx" (if the handler makes no pool call, right after it), modelled by the lock regions of the
+   code: pool.mu region of removeStream, remoteMu region of handleSubscribe (AddTagsCtx fails and the interest
+   is rolled back if victim = sid), remoteMu region of the close hook.  After ANY history such an event leaves
+   exactly the registered interest of "the Subscribe, then the removal of victim", un-pools exactly the
+   victim, and — when the subscribing stream itself is the one that goes away — registers nothing and leaves
+   every other stream's interest exactly as it was (however many patterns it shared with the victim).
+   Since [ESubMid] is an event like any other, c17_model_satisfies_spec_svc / c17_views_agree /
+   c17_delivery_exact / c17_teardown_* cover the states after such races as well. *)
+Theorem c17_subscribe_close_race : forall c evs sid victim space pats, fresh_opens evs ->
+  let s := svc_exec c svc_init evs in
+  let s' := svc_exec c svc_init (evs ++ [ESubMid sid victim space pats]) in
+  (forall sigma sp0 q,
+     has s' sigma sp0 q = has (fst (handle_sub c s sid space pats)) sigma sp0 q && negb (N.eqb sigma victim))
+  /\ (forall x, in_pool s' x = in_pool s x && negb (N.eqb x victim))
+  /\ (victim = sid -> forall sigma sp0 q, has s' sigma sp0 q = has s sigma sp0 q && negb (N.eqb sigma sid)).
+Proof. exact subscribe_close_race. Qed.
+Print Assumptions c17_subscribe_close_race.
+
+(* non-vacuity: stream 2 holds a/>; stream 1 subscribes to the same pattern (and another one) and leaves the pool
+   before its tags are registered; a publish on a/b still reaches stream 2 and the snapshot shows stream 2's
+   record, tag and trie entry (Len 1) in agreement; later stream 2 is removed during a Subscribe of stream 3.
+   The predicate REJECTS the outputs of an implementation in which the roll-back withdraws the shared pattern
+   a second time (nothing delivered, space trie gone while stream 2's record and tag remain). *)
+Example c17_subscribe_close_race_nonvacuous :
+  let a := 97%N in let b := 98%N in
+  let c := mkCfg 100 1000 1000 [0%N] [] [[120%N]; [121%N]; [122%N]] in
+  let evs := [EOpen 1 0; EOpen 2 1; EOpen 3 2; ESetMember 0 0 true; ESetMember 0 1 true; ESetMember 0 2 true;
+              ESub 2 0 [[a; SLASH; GT]]; ESubMid 1 1 0 [[a; SLASH; GT]; [b]]; EPub 3 0 [a; SLASH; b] 3 false true; ESnap;
+              ESub 1 0 [[b]]; ESubMid 3 2 0 [[a; SLASH; GT]]; EPub 3 0 [a; SLASH; b] 3 false true; ESnap] in
+  let snap2 := OSnap [(0%N, (1%N, false))] [(2%N, (1%N, 1%N, [(0%N, [[a; SLASH; GT]])]))]
+                     [(2%N, [(0%N, [a; SLASH; GT])]); (3%N, [])] in
+  let tail := [ONone; ONone; OPub [3%N] None true;
+               OSnap [(0%N, (1%N, false))] [(3%N, (2%N, 1%N, [(0%N, [[a; SLASH; GT]])]))] [(3%N, [(0%N, [a; SLASH; GT])])]] in
+  let pre := [ONone; ONone; ONone; ONone; ONone; ONone; ONone; ONone] in
+  svc_run c svc_init evs = pre ++ [OPub [2%N] None true; snap2] ++ tail
+  /\ spec_C17_svc c evs (svc_run c svc_init evs) = true
+  /\ spec_C17_svc c evs (pre ++ [OPub [] None true; snap2] ++ tail) = false
+  /\ spec_C17_svc c evs (pre ++ [OPub [2%N] None true;
+                                 OSnap [] [(2%N, (1%N, 1%N, [(0%N, [[a; SLASH; GT]])]))]
+                                       [(2%N, [(0%N, [a; SLASH; GT])]); (3%N, [])]] ++ tail) = false.
+Proof. vm_compute. repeat split; reflexivity. Qed.
 
 (* every other event only removes interest, and removes what it is meant to remove ([withdraws]:
    Unsubscribe of the pattern / of all, Close or Break of the stream, Evict of the stream's account,
